@@ -63,8 +63,12 @@ func VP_C11_Cli() {
 	zzvp.WriteFile(w+"/f", []byte("2"))
 	vpOK(zzvp.Run("add", "f"))
 	vpOK(zzvp.Run("commit", "-m", "second"))
-	if zzvp.Choose(2) == 1 {
+	switch zzvp.Choose(3) {
+	case 1:
 		vpOK(zzvp.Run("branch", "-r", "trunk")) // journal entries without target commit
+	case 2:
+		vpOK(zzvp.Run("branch", "gone"))
+		vpOK(zzvp.Run("branch", "-d", "gone")) // a deleted branch
 	}
 	b := zzvp.Run("reflog")
 	zzvp.Assert(b.Exit == 0, "reflog works after any history Goit produced, whatever the commit messages contain")
